@@ -43,8 +43,7 @@ DeclaredApart(a, b, probes) ==
 \* hash-consistent, never equal to the bare key -- observed on the real class for every pair of
 \* keys of the key zoo and reported as one flag per schema event
 Verdict(e) ==
-  IF ~e.optional_ok THEN "FAIL:optional_marker_equality_or_hash:"
-  ELSE IF ~e.refl THEN "FAIL:not_reflexive:"
+  IF ~e.refl THEN "FAIL:not_reflexive:"
   ELSE IF ~e.stable THEN "FAIL:relation_changed_after_the_schemas_were_used:"
   ELSE IF ~e.rebuilt_eq THEN "FAIL:independent_builds_unequal:"
   ELSE IF ~e.ne_ok THEN "FAIL:ne_is_not_the_negation_of_eq:"
@@ -57,7 +56,8 @@ Verdict(e) ==
 
 \* the operational model of == predicts exactly which schemas compare equal
 Drift(e) ==
-  {b \in EqUniverse(Depth) : b # e.a /\ SEq(e.a, b)} # {e.equals[j].b : j \in DOMAIN e.equals}
+  \/ ~e.optional_ok        \* the marker class on its own: a helper, its effect on schemas is judged above
+  \/ {b \in EqUniverse(Depth) : b # e.a /\ SEq(e.a, b)} # {e.equals[j].b : j \in DOMAIN e.equals}
 
 TraceNext == TraceStep(Verdict, Drift)
 
